@@ -477,6 +477,31 @@ pub fn gen_code(rng: &mut Rng, spec: SpecId, n_txs: usize) -> Block {
                 own_next = nonce + 1;
                 b.nonces.insert(authority, auth_nonce_guess);
             }
+            8 | 9 if prague => {
+                // the sandwich the commit-time nonce check exists for: the authority sends a
+                // transaction, a sponsor's authorisation bumps its nonce, and the authority's next
+                // transaction still counts only its own (in order: NonceTooLow, skipped)
+                let i = b.transfer(rng, authority, from, 1);
+                b.txs[i].nonce = auth_nonce_guess;
+                auth_nonce_guess += 1;
+                let target = pick(rng, &[x, y]);
+                let j = b.tx(rng, from, TxKind::Call(from), U256::ZERO, vec![], 500_000, format!("7702 auth -> {target:#x} (sandwiched)"));
+                b.txs[j].tx_type = 4;
+                b.txs[j].authorization_list = vec![auth(authority, target, auth_nonce_guess)];
+                if b.txs[j].gas_priority_fee.is_none() {
+                    b.txs[j].gas_priority_fee = Some(0);
+                }
+                if b.txs[j].gas_price < b.basefee as u128 {
+                    b.txs[j].gas_price = b.basefee as u128;
+                }
+                let stale_nonce = auth_nonce_guess; // what the authority believes its nonce is
+                auth_nonce_guess += 1; // consumed by the authorisation
+                let k = b.transfer(rng, authority, from, 1);
+                b.txs[k].nonce = stale_nonce;
+                b.desc[k].push_str(" [authority nonce ignores the sandwiched authorisation]");
+                own_next = stale_nonce + 1;
+                b.nonces.insert(authority, auth_nonce_guess);
+            }
             7 => {
                 b.call(rng, from, dep, &[], "deploy");
                 dep_nonce += 1;
